@@ -47,8 +47,19 @@ def gen_pool(rng, worm_tbl):
         if t in ('spur', 'helical', 'wormwheel'):
             e['z'] = rng.randint(10, 90)
             e['module'] = rep('Length', rng.choice(modules)) if rng.random() < 0.6 else None
+            twins = [x['module'] for x in pool if x.get('module')]
+            if twins and rng.random() < 0.15:
+                # the same *number* as another gear's module but in another unit (2 mm vs 2 cm): different modules
+                v, u = rng.choice(twins)[:2]
+                e['module'] = [v, rng.choice([x for x in SI['Length'] if x != u])]
         if t == 'helical':
             e['helix'] = rep('Angle', math.radians(rng.choice(helixes)))
+            twins = [x['helix'] for x in pool if x.get('type') == 'helical']
+            if twins and rng.random() < 0.15:
+                v, u = rng.choice(twins)[:2]
+                u2 = rng.choice([x for x in SI['Angle'] if x != u])
+                if float(F(v) * SI['Angle'][u2]) < math.radians(89):
+                    e['helix'] = [v, u2]
         if t in ('wormgear', 'wormwheel'):
             row = rng.choice(pas)
             e['pa'] = [row[0], 'deg'] if rng.random() < 0.7 else gen.in_unit(rng, 'Angle', math.radians(row[0]), True)
@@ -476,6 +487,31 @@ def gen_chain_case(rng, tbl):
     return {'t': 'rel', 'pool': pool, 'decls': decls}
 
 
+def twin_case(rng):
+    """gear pairs whose modules (helix angles) are the same *number* in two different units — different modules,
+    must be rejected — next to pairs whose modules are the same magnitude written in two units"""
+    kind = rng.choice(['spur', 'spur', 'helical'])
+    v = rng.choice([0.5, 1.0, 2.0, 3.0, 5.0])
+    u1, u2 = rng.sample(['mm', 'cm', 'dm', 'm'], 2)
+    hel = gen.in_unit(rng, 'Angle', math.radians(rng.uniform(5, 40)), True)
+
+    def g(name, module, helix=None):
+        e = {'type': kind, 'name': name, 'z': rng.randint(10, 90), 'module': module}
+        if kind == 'helical':
+            e['helix'] = list(helix or hel)
+        return e
+    pool = [{'type': 'motor', 'name': 'n0'}, g('n1', [v, u1]), g('n2', [v, u2]), g('n3', [v, u1])]
+    decls = [['joint', 0, 1], ['gear', 1, 2, 0.9], ['gear', 1, 3, 0.9], ['gear', 2, 1, 0.8]]
+    if kind == 'helical':
+        hv = rng.choice([10.0, 20.0, 0.5])
+        ua, ub = rng.sample(['deg', 'rad', 'arcmin', 'rot'], 2)
+        if max(float(F(hv) * SI['Angle'][ua]), float(F(hv) * SI['Angle'][ub])) < math.radians(89):
+            pool += [g('n4', [v, u1], [hv, ua]), g('n5', [v, u1], [hv, ub])]
+            decls += [['gear', 4, 5, 0.9]]
+    rng.shuffle(decls)
+    return {'t': 'rel', 'pool': pool, 'decls': decls}
+
+
 def worm_edge_case(rng, tbl):
     """worm matings around the limits of the efficiency range: friction near cos(alpha)/tan(beta) (worm drives:
     efficiency changes sign) or cos(alpha)*tan(beta) (wheel drives; also the self-locking criterion), steep and flat worms"""
@@ -518,6 +554,9 @@ def run_props(ctx, props, quick=300, thorough=12000):
         if r < 0.15:
             case = worm_edge_case(rng, tbl)
             ctx.count('stream worm efficiency limits')
+        elif r < 0.22:
+            case = twin_case(rng)
+            ctx.count('stream equal numbers in different units')
         elif r < 0.65:
             case = gen_chain_case(rng, tbl)
             ctx.count('stream mostly-valid chain')
